@@ -27,7 +27,7 @@ func init() { sim.Register(c16{}) }
 func (c16) ID() string { return "C16" }
 
 var c16Types = []string{gen.TOpen2, gen.TOpen2, gen.TOpen3, gen.TEditions, gen.THybrid, gen.TOpaque, gen.TOpaque, gen.TLazyNode, gen.TMixedOpq, gen.TManyOpaque,
-	gen.TExt2, gen.TExt2, "opaque.goproto.proto.testeditions.TestAllExtensions"} // message- and group-typed extension values: sized through the extension's own coder
+	gen.TExt2, gen.TExt2, "opaque.goproto.proto.testeditions.TestAllExtensions", "pbsim.fx.AfterOneof", "opaque.goproto.proto.test3.TestAllTypes"} // message- and group-typed extension values: sized through the extension's own coder
 
 var c16Writes = []string{"set-scalar", "set-scalar", "clear-field", "set-msg", "mutable-touch", "gen-set-msg", "gen-clear", "merge-into", "append-list", "map-set", "elem-mutate", "elem-mutate", "unknown-append", "truncate-list"}
 var c16Reads = []string{"size", "size", "marshal", "marshal", "marshal-det", "marshal-append", "size-marshal-cached", "get-chain", "reflect-range", "clone", "equal", "json"}
